@@ -50,7 +50,11 @@ func (n *node) start() {
 func mkEntry(idx uint64, name string) *raft.Log {
 	t := vrt.U64(name + ".term")
 	vrt.Assume(t >= 1 && t < 1000)
-	return &raft.Log{Index: idx, Term: t, Type: raft.LogCommand, Data: vrt.Bytes(name+".data", 1+vrt.Choice(name+".dlen", 2))}
+	// any entry type but the one the harness's IsCheckpointFn recognises (commands, membership
+	// changes, barriers, ... are all summed alike)
+	ty := raft.LogType(vrt.U8(name + ".type"))
+	vrt.Assume(ty != raft.LogNoop)
+	return &raft.Log{Index: idx, Term: t, Type: ty, Data: vrt.Bytes(name+".data", 1+vrt.Choice(name+".dlen", 2))}
 }
 
 func cpEntry(idx, term uint64) *raft.Log {
@@ -321,9 +325,9 @@ func HarnessRetry() {
 	vrt.Assert("C17.retry-ok", replicate(A, F, base, base+2, 0, nil) == nil)
 	vrt.Quiesce()
 	r := lastReport(F)
-	vrt.Assert("C17.report-delivered", r != nil)
+	vrt.Assert("C16-C17.report-delivered", r != nil)
 	if r != nil {
-		vrt.Assert("C17.retry-not-blamed", r.Err == nil)
+		vrt.Assert("C16-C17.retry-not-blamed", r.Err == nil)
 	}
 	vrt.Reach("retry-checked")
 }
@@ -432,6 +436,16 @@ func HarnessNonBlocking() {
 	vrt.Quiesce()
 	close(V.block) // the slow callback finally returns
 	vrt.Quiesce()
+	if vrt.Param("after", 1) == 1 {
+		// one more checkpoint once the verifier is free again: its report follows whatever was
+		// dropped in the meantime, and must name ALL of it as skipped
+		V.block = nil
+		batch := []*raft.Log{mkEntry(idx, "e"), cpEntry(idx+1, 3)}
+		total++
+		vrt.Assert("C18.store-after-unblock-ok", V.ls.StoreLogs(batch) == nil)
+		vrt.Quiesce()
+		vrt.Assert("C18.report-after-unblock-delivered", len(V.reports) > 0 && V.reports[len(V.reports)-1].Range.End == idx+1)
+	}
 	dropped := V.mc.Summary().Counters["dropped_reports"]
 	vrt.Assert("C18.delivered-plus-dropped-equals-checkpoints", uint64(len(V.reports))+dropped == uint64(total))
 	vrt.Assert("C18.checkpoints-written-counter", V.mc.Summary().Counters["checkpoints_written"] == uint64(total))
